@@ -459,6 +459,11 @@ class NetRunner:
                 if m.get("status") == "ok":
                     # hypotheses of the generator theorems (reverse-paired link edges, only links at routers)
                     stats["graph-hypothesis-" + ("holds" if m.get("graphHyp") else "FAILS")] += 1
+                    if cfg["routing"]["route_algo"] == "SRC":
+                        # hypothesis of C03M.model_route_unpacks (every hop of a source route takes at least one bit)
+                        stats["route-hypothesis-" + ("holds" if m.get("routeHyp") else "FAILS")] += 1
+                        if not m.get("routeHyp") and pid == "C03" and len(disagreements) < 3:
+                            disagreements.append({"case": name, "cfg": cfg, "model": {"hypothesis": "a hop of a source route takes zero bits"}})
                     if not m.get("graphHyp") and pid == "C05" and len(disagreements) < 3:
                         disagreements.append({"case": name, "cfg": cfg, "model": {"hypothesis": "PairedGraph / OnlyLinksAt fails"}})
             hv = res.get("holds", {}).get(pid)
